@@ -51,7 +51,9 @@ class LindbladForm(RedfieldRelaxationTensor):
         if sbi is None:
             KK = numpy.zeros((1, Na, Na), dtype=REAL)
         else:
-            KK = sbi.KK
+            # the form keeps its own copy of the operators: they are
+            # transformed in place when the basis changes
+            KK = numpy.array(sbi.KK, dtype=REAL)
             
         self._post_implementation(KK, llm, lld)
 
